@@ -96,36 +96,44 @@ Definition upd3 {A} (f : Z -> Z -> Z -> A) (k1 k2 k3 : Z) (v : A) : Z -> Z -> Z 
 
 (* ---------- the vault KV records (key = id; a record is replaced in place, a new key is
    appended: ids only grow, so the list stays in key order, as the store iterates) ---------- *)
-Fixpoint find_v (l : list vault) (id : Z) : option vault :=
-  match l with [] => None | v :: r => if v_id v =? id then Some v else find_v r id end.
-Fixpoint put_v (l : list vault) (v : vault) : list vault :=
-  match l with [] => [v] | w :: r => if v_id w =? v_id v then v :: r else w :: put_v r v end.
-Fixpoint del_v (l : list vault) (id : Z) : list vault :=
-  match l with [] => [] | w :: r => if v_id w =? id then r else w :: del_v r id end.
-
-Fixpoint find_sv (l : list svault) (id : Z) : option svault :=
-  match l with [] => None | v :: r => if sv_id v =? id then Some v else find_sv r id end.
-Fixpoint put_sv (l : list svault) (v : svault) : list svault :=
-  match l with [] => [v] | w :: r => if sv_id w =? sv_id v then v :: r else w :: put_sv r v end.
+Section KV.
+  Context {A : Type} (key : A -> Z).
+  Fixpoint gfind (l : list A) (id : Z) : option A :=
+    match l with [] => None | v :: r => if key v =? id then Some v else gfind r id end.
+  Fixpoint gput (l : list A) (v : A) : list A :=
+    match l with [] => [v] | w :: r => if key w =? key v then v :: r else w :: gput r v end.
+  Fixpoint gdel (l : list A) (id : Z) : list A :=
+    match l with [] => [] | w :: r => if key w =? id then r else w :: gdel r id end.
+End KV.
+Definition find_v := gfind v_id.
+Definition put_v := gput v_id.
+Definition del_v := gdel v_id.
+Definition find_sv := gfind sv_id.
+Definition put_sv := gput sv_id.
 
 (* ---------- bank ---------- *)
 (* SendCoins* with one coin: sdk.NewCoin panics on a negative amount, sdk.NewCoins drops a zero
    coin (empty send), otherwise the sender must hold the amount *)
+(* the balance change of a transfer: subUnlockedCoins(from) then addCoins(to) *)
+Definition xfer (from to d amt : Z) : Z -> Z -> Z :=
+  fun a x => (if (a =? to) && (x =? d) then amt else 0) - (if (a =? from) && (x =? d) then amt else 0).
+Definition at1 (d amt : Z) : Z -> Z := fun x => if x =? d then amt else 0.
+Definition at2 (a0 d amt : Z) : Z -> Z -> Z := fun a x => if (a =? a0) && (x =? d) then amt else 0.
+
 Definition send (s : state) (from to d amt : Z) : outcome state :=
   if amt <? 0 then Panic
   else if amt =? 0 then Ok s
   else if bal s from d <? amt then Err E_FUNDS
-  else let b1 := upd2 (bal s) from d (bal s from d - amt) in
-       Ok (set_bal s (upd2 b1 to d (b1 to d + amt))).
+  else Ok (set_bal s (fun a x => bal s a x + xfer from to d amt a x)).
 
 (* MintCoins / BurnCoins on the vault module account *)
 Definition mint (s : state) (d amt : Z) : outcome state :=
   if amt <? 0 then Panic
-  else Ok (set_sup (set_bal s (upd2 (bal s) VAULT d (bal s VAULT d + amt))) (upd1 (sup s) d (sup s d + amt))).
+  else Ok (set_sup (set_bal s (fun a x => bal s a x + at2 VAULT d amt a x)) (fun x => sup s x + at1 d amt x)).
 Definition burn (s : state) (d amt : Z) : outcome state :=
   if amt <? 0 then Panic
   else if bal s VAULT d <? amt then Err E_FUNDS
-  else Ok (set_sup (set_bal s (upd2 (bal s) VAULT d (bal s VAULT d - amt))) (upd1 (sup s) d (sup s d - amt))).
+  else Ok (set_sup (set_bal s (fun a x => bal s a x - at2 VAULT d amt a x)) (fun x => sup s x - at1 d amt x)).
 
 (* collector.UpdateCollector: fails only through SetNetFeeCollectedData on a negative fee *)
 Definition update_collector (s : state) (fee : Z) : outcome state :=
@@ -575,7 +583,7 @@ Definition msg_interest_calc (c : cfg) (s : state) (app id ienv : Z) : outcome s
 (* a plain bank transfer of a user to the custody account: unsolicited coins *)
 Definition donate (s : state) (from d amt : Z) : outcome state :=
   if amt <=? 0 then Err E_INVALID else
-  obind (send s from VAULT d amt) (fun s1 => Ok (set_unsol s1 (upd1 (unsol s1) d (unsol s1 d + amt)))).
+  obind (send s from VAULT d amt) (fun s1 => Ok (set_unsol s1 (fun x => unsol s1 x + at1 d amt x))).
 
 (* ---------- operations ---------- *)
 Inductive op :=
